@@ -129,6 +129,10 @@ def part3(chk, tier, rnd):
         cases.append((None, 64, 0, v, str(v), 'unannotated-local'))
         cases.append((None, 64, 0, v, str(v), 'unannotated-global'))
         cases.append((None, 64, 0, v, str(v), 'arithmetic'))
+    # unannotated locals that never meet a typed context: the defaulting rules alone decide their type
+    for v in (5, 2147483647, 2147483648, 3000000000, 4294967295, 4294967296, 1 << 40):
+        cases.append((None, 64, 0, v, str(v), 'untyped-compare'))
+        cases.append((None, 64, 0, v, str(v), 'untyped-divide'))
     bad = 0
     for i, (t, w, sg, v, sp, how) in enumerate(cases):
         if how == 'annotated':
@@ -142,6 +146,13 @@ def part3(chk, tier, rnd):
         elif how == 'unannotated-global':
             src = 'G :: %s;\nlit :: (r: ^mut u64) { r^ = u64.(G); }\nmain :: () { p := lit; }\n' % sp
             fits = True; w = 64
+        elif how == 'untyped-compare':
+            # the written value is > 1, so `x > 1` must hold; observed value: 7 when it holds, 0 otherwise
+            src = 'lit :: (r: ^mut u64) { x := %s; r^ = 0; if x > 1 { r^ = 7; } }\nmain :: () { p := lit; }\n' % sp
+            fits = True; w = 64; v = 7
+        elif how == 'untyped-divide':
+            src = 'lit :: (r: ^mut u64) { x := %s; r^ = 0; if x / 2 > 0 { r^ = 7; } }\nmain :: () { p := lit; }\n' % sp
+            fits = True; w = 64; v = 7
         else:
             src = 'lit :: (r: ^mut u64) { x : u64 = 1; r^ = x + %s - 1; }\nmain :: () { p := lit; }\n' % sp
             fits = True; w = 64
